@@ -41,7 +41,7 @@ use lightning_signer::chain::tracker::Headers;
 use lightning_signer::channel::{ChannelBase, ChannelId, ChannelSetup, ChannelSlot, CommitmentType};
 use lightning_signer::lightning::ln::chan_utils::build_commitment_secret;
 use lightning_signer::lightning::types::payment::{PaymentHash, PaymentPreimage};
-use lightning_signer::node::{Node, NodeMonitor, SpendType};
+use lightning_signer::node::{Node, NodeMonitor, SpendType, ToStringForNetwork};
 use lightning_signer::signer::derive::KeyDerivationStyle;
 use lightning_signer::tx::tx::HTLCInfo2;
 use lightning_signer::txoo::proof::{ProofType, TxoProof};
@@ -549,10 +549,27 @@ fn final_state(sys: &Sys) -> Value {
         pays.sort_by(|a, b| a.0.cmp(&b.0));
         m.insert("mem:payments".to_string(), Value::Object(pays.into_iter().collect()));
         m.insert("mem:invoices".to_string(), json!(state.invoices.len()));
+        let mut al: Vec<String> = state.allowlist.iter().map(|a| a.to_string(NETWORK)).collect();
+        al.sort();
+        m.insert("mem:allowlist".to_string(), json!(al));
         m.insert("mem:excess_amount".to_string(), json!(state.excess_amount));
+    }
+    // what a signer restarted from the store alone would trust (only for the pairs that ask for it)
+    if DEEP.load(std::sync::atomic::Ordering::SeqCst) {
+        let id = sys.node.get_id();
+        let restored = catch_unwind(AssertUnwindSafe(|| {
+            let n = sys.world.restart(&id);
+            let mut al = n.allowlist().unwrap_or_default();
+            al.sort();
+            al
+        }));
+        m.insert("restored:allowlist".to_string(), match restored { Ok(al) => json!(al), Err(_) => json!("restart failed") });
     }
     Value::Object(m)
 }
+
+/// compare also the state of a node restored from the store (set per pair by the sweep)
+static DEEP: std::sync::atomic::AtomicBool = std::sync::atomic::AtomicBool::new(false);
 
 /// the same two requests (prepared in the same order) run one after the other
 fn run_sequential(rec: &Arc<Rec>, first: &str, second: &str, swap: bool) -> Option<(Vec<Rep>, Value)> {
@@ -620,6 +637,8 @@ const KINDS: &[&str] = &[
     "approve_invoice",
     "approve_keysend",
     "allowlist_add",
+    "allowlist_remove",
+    "allowlist_set",
     "new_channel",
     "new_channel_with_random_id",
     "new_channel_existing",
@@ -988,6 +1007,16 @@ fn make_req(sys: &mut Sys, kind: &str) -> Req {
         "allowlist_add" => {
             let addr = make_test_funding_wallet_addr(&node, 20_000, SpendType::P2wpkh).to_string();
             Box::new(move || node.add_allowlist(&[addr]).is_ok())
+        }
+        "allowlist_remove" => {
+            // X was allowed before; the request takes it off the list
+            let x = make_test_funding_wallet_addr(&node, 20_001, SpendType::P2wpkh).to_string();
+            node.add_allowlist(&[x.clone()]).expect("allow X");
+            Box::new(move || node.remove_allowlist(&[x]).is_ok())
+        }
+        "allowlist_set" => {
+            let y = make_test_funding_wallet_addr(&node, 20_002, SpendType::P2wpkh).to_string();
+            Box::new(move || node.set_allowlist(&[y]).is_ok())
         }
         "check_onchain_wallet" | "check_onchain_allowlist" => {
             let mut f = TestFundingTxContext::new();
@@ -1564,6 +1593,22 @@ fn sweep(rec: &Arc<Rec>, args: &Args) {
             }
         }
     }
+    // allowlist edits on one node: every pause point (a point between the in-memory update and the store
+    // write included, if there is one), both orders; compared down to a node restored from the store
+    {
+        let fam: Vec<usize> = (0..acqs.len()).filter(|i| acqs[*i].0.starts_with("allowlist_")).collect();
+        for &pi in fam.iter() {
+            for &qi in fam.iter() {
+                if pi != qi {
+                    for pt in points_all[pi].iter() {
+                        if seen.insert((pi, pt.clone(), qi)) {
+                            triples.push((pi, pt.clone(), qi));
+                        }
+                    }
+                }
+            }
+        }
+    }
     // requests with a check-then-act window on the node state (named by the caller): paused inside the
     // window, against every other request that takes the node state
     let mut focus_s: Vec<usize> = vec![];
@@ -1730,6 +1775,7 @@ fn sweep(rec: &Arc<Rec>, args: &Args) {
     while idx < triples.len() {
         let (pi, pt, qi) = triples[idx].clone();
         let spec = vec![format!("{}{}", acqs[pi].0, pt), acqs[qi].0.clone()];
+        DEEP.store(acqs[pi].0.starts_with("allowlist_") || acqs[qi].0.starts_with("allowlist_"), std::sync::atomic::Ordering::SeqCst);
         let (report, stuck) = race_once(rec, &spec, Duration::from_millis(3000));
         idx += 1;
         if stuck {
